@@ -454,6 +454,100 @@ func scenarioSnapshot(name string, nWriters, txns int, rowsPerWriter [][]uint32)
 	return scenarioSnapshotOpt(name, nWriters, txns, rowsPerWriter, false, false)
 }
 
+// scenarioSnapshotMarkers: a snapshot beside ONE writer that inserts, deletes and merges a shrinking string, one
+// committed transaction after the other. With a single sequential writer the states the collection goes through
+// are totally ordered; the restored collection must be one of them — between what was acknowledged before the
+// snapshot began and what had started when it returned — row for row and value for value.
+func scenarioSnapshotMarkers(name string) scenario {
+	return scenario{name: name, build: func(s *scheduler) (func(*scheduler) (string, string, string), func()) {
+		mk := func() *column.Collection {
+			c := column.NewCollection(column.Options{Capacity: 64, Vacuum: 24 * time.Hour})
+			c.CreateColumn("a", column.ForInt64())
+			c.CreateColumn("s", column.ForString(column.WithMerge(func(v, d string) string {
+				if len(d) > 2 {
+					return d[len(d)-2:] // the result is shorter than the delta
+				}
+				return v + d
+			})))
+			return c
+		}
+		c := mk()
+		column.VerifSetYield(nil)
+		insertMarkers(c, 0, 1)
+		for _, r := range []uint32{0, 1} {
+			c.QueryAt(r, func(row column.Row) error { row.SetInt64("a", 0); row.SetString("s", "init"); return nil })
+		}
+		dump := func(c *column.Collection) string {
+			var parts []string
+			c.Query(func(txn *column.Txn) error {
+				return txn.Range(func(idx uint32) {
+					txn.QueryAt(idx, func(r column.Row) error {
+						a, okA := r.Int64("a")
+						sv, okS := r.String("s")
+						parts = append(parts, fmt.Sprintf("%d{a=%d/%v,s=%s/%v}", idx, a, okA, sv, okS))
+						return nil
+					})
+				})
+			})
+			return strings.Join(parts, " ")
+		}
+		states := []string{dump(c)}
+		column.VerifSetYield(s.yield)
+		var acked, started int64
+		var snap bytes.Buffer
+		var snapErr error
+		var ackAtStart, startedAtEnd int64
+		s.spawn("writer", func() {
+			var ins1 uint32
+			steps := []func(){
+				func() { ins1, _ = c.Insert(func(row column.Row) error { row.SetInt64("a", 11); row.SetString("s", "first"); return nil }) },
+				func() { c.QueryAt(0, func(row column.Row) error { row.MergeString("s", "abcdef"); row.SetInt64("a", 1); return nil }) },
+				func() { c.Insert(func(row column.Row) error { row.SetInt64("a", 22); return nil }) },
+				func() { c.DeleteAt(ins1) },
+				func() { c.QueryAt(1, func(row column.Row) error { row.MergeString("s", "uvwxyz"); return nil }) },
+			}
+			for _, st := range steps {
+				atomic.AddInt64(&started, 1)
+				st()
+				// the state after this commit (taken by the writer itself, outside the scheduler's yield points)
+				column.VerifSetYield(nil)
+				states = append(states, dump(c))
+				column.VerifSetYield(s.yield)
+				atomic.AddInt64(&acked, 1)
+			}
+		})
+		s.spawn("snapshot", func() {
+			ackAtStart = atomic.LoadInt64(&acked)
+			snapErr = c.Snapshot(&snap)
+			startedAtEnd = atomic.LoadInt64(&started)
+		})
+		check := func(s *scheduler) (string, string, string) {
+			column.VerifSetYield(nil)
+			if snapErr != nil {
+				return "snapfail", "Snapshot failed beside a writer: " + snapErr.Error(), ""
+			}
+			q := mk()
+			defer q.Close()
+			if err := q.Restore(bytes.NewReader(snap.Bytes())); err != nil {
+				return "cut", "Restore of the snapshot failed: " + err.Error(), ""
+			}
+			got := dump(q)
+			for k := int(ackAtStart); k <= int(startedAtEnd) && k < len(states); k++ {
+				if states[k] == got {
+					return "", "", ""
+				}
+			}
+			// an insert reserved but not yet committed shows as an empty row: finding D17
+			known := ""
+			if strings.Contains(got, "a=0/false,s=/false") {
+				known = "D17"
+			}
+			return "cut", fmt.Sprintf("the restored collection [%s] equals none of the states the primary went through between the %d commits acknowledged before the snapshot began and the %d started when it returned: %s", got, ackAtStart, startedAtEnd, strings.Join(states, " | ")), known
+		}
+		return check, func() { c.Close() }
+	}}
+}
+
 // scenarioSnapshotInflight: a snapshot beside an insert whose offset is the first of a new chunk (the
 // reservation is in the fill list, the chunk is not allocated until the insert commits; defect D18)
 func scenarioSnapshotInflight(name string) scenario {
@@ -882,7 +976,8 @@ func scenariosFor(prop string, tier string) []scenario {
 			scenarioSnapshot("snap-3w-2chunks", 3, 1, [][]uint32{{0}, {b1}, {1, b1 + 1}}),
 			scenarioSnapshotOpt("snap-midcommit", 2, 1, [][]uint32{{0}, {b1}}, true, false),
 			scenarioSnapshotOpt("snap-growth", 0, 0, nil, false, true),
-			scenarioSnapshotInflight("snap-inflight-insert"))
+			scenarioSnapshotInflight("snap-inflight-insert"),
+			scenarioSnapshotMarkers("snap-markers"))
 	case "C11", "C02":
 		out = append(out, scenarioInserters("2ins", 2, 2, false), scenarioInserters("3ins", 3, 1, false), scenarioInserters("2ins-deleter", 2, 2, true))
 	case "C03":
